@@ -69,9 +69,10 @@ MUTANTS = [
       "dropped marginalisation (line 2): the carried distribution keeps the non-ancestors; line 1 afterwards sums over the nodes of the "
       "smaller graph only, so the estimand is P(y, w) with w free (treatments that are not ancestors of the outcomes)", run=["C01", "C02", "C03"]),
     M("i03", "id", IDS, "    outcome_ancestral_graph = graph.subgraph(outcomes_and_ancestors)\n",
-      "    outcome_ancestral_graph = graph.subgraph(outcomes_and_ancestors | treatments)\n", EQ,
-      "wrong graph (line 2), harmless: non-ancestral treatments survive one round in the graph but leave the query, the next call applies line 2 "
-      "again and removes them; the estimand is the same up to a nested sum (Sum_x Sum_w P instead of Sum_{x,w} P)"),
+      "    outcome_ancestral_graph = graph.subgraph(outcomes_and_ancestors | treatments)\n", ["C01", "C03"],
+      "wrong graph (line 2): treatments that are not ancestors of Y stay in the graph although the carried estimand already sums them out and the "
+      "query drops them; the next line 1 / line 2 sums over them AGAIN, and a sum over a variable that is not free multiplies by its cardinality "
+      "(estimand = |dom(x)| * P(y)).  First classified as equivalent ('same up to a nested sum'); the C01 check showed otherwise"),
     M("i04", "id", IDS, "    # line 3\n    no_effect_on_outcome = graph.get_no_effect_on_outcomes(treatments, outcomes)\n",
       "    # line 3\n    no_effect_on_outcome = graph.get_no_effect_on_outcomes(outcomes, treatments)\n", ["C02", "C03"],
       "swapped arguments in identify()'s line-3 test: line_3() itself recomputes the set correctly, so either it raises ValueError (test fired, "
@@ -125,6 +126,10 @@ MUTANTS = [
     M("i32", "id", IDS, "                    p_parents(v, parents, identification.estimand) for v in district\n",
       "                    p_parents(v, parents, P(graph.nodes())) for v in district\n", ["C01"],
       "defect F3 re-introduced at line 7 only: a SECOND line 7 (7 -> 2 -> 7) reads its conditionals off the observational joint"),
+    M("i35", "id", IDS, "            parents = list(graph.topological_sort())\n            return Identification.from_parts(\n",
+      "            parents = list(graph.subgraph(district).topological_sort())\n            return Identification.from_parts(\n", ["C01"],
+      "wrong graph (line 7): the order of G[S'] instead of G, so the conditionals of the carried product lose the predecessors outside S' "
+      "(napkin: P(x | w) instead of P(x | w, r)); added after round 1"),
 
     # =============================================================== graph.py helpers used only by ID
     M("g01", "graph", GR, "        return self.remove_in_edges(interventions).ancestors_inclusive(outcomes)\n",
@@ -139,8 +144,9 @@ MUTANTS = [
       "            set(self.nodes())\n            - self.get_intervened_ancestors(interventions, outcomes)\n", ["C02"],
       "dropped operand: a treatment that reaches Y only through another treatment (x1 -> x2 -> y) counts as 'no effect', line 3 adds it to X, "
       "nothing changes and ID recurses for ever (RecursionError)"),
-    M("g04", "graph", GR, "        return cast(bool, nx.is_connected(self.undirected))\n", "        return cast(bool, nx.is_connected(self.disorient()))\n", ["C01", "C02"],
-      "wrong graph: connectivity through all edges instead of the bidirected ones (lines 4 and 5)"),
+    M("g04", "graph", GR, "        return cast(bool, nx.is_connected(self.undirected))\n", "        return cast(bool, nx.is_connected(self.disorient()))\n", ["C02"],
+      "wrong graph: connectivity through all edges instead of the bidirected ones (lines 4 and 5): line 4 fires less often (when it fires it is right), line 5 "
+      "refuses identifiable effects and _get_single_district raises RuntimeError; never a wrong estimand (first classified as breaking C01 too)"),
     M("g05", "graph", GR, "            - self.get_intervened_ancestors(interventions, outcomes)\n", "            - self.get_intervened_ancestors(outcomes, interventions)\n", ["C01", "C02"],
       "swapped arguments: ancestors of X in the graph with the edges into Y removed"),
 
@@ -173,6 +179,9 @@ MUTANTS = [
     M("u14", "utils", UT, "        outcomes = {child.get_base() for child in query.children}  # clean counterfactuals\n",
       "        outcomes = {query.children[0].get_base()}  # clean counterfactuals\n", ["C01"],
       "Query.from_expression keeps the first child only: P[X](Y1, Y2) is identified as P[X](Y1)", run=["C01"]),
+    M("u15", "utils", UT, "            treatments=self.treatments | variables,\n", "            treatments=self.treatments.update(variables) or self.treatments,\n", OUT,
+      "in-place union in exchange_observation_with_action: the caller's Query.treatments grows when IDC exchanges a condition in its first call; the estimand is "
+      "unchanged and C03 has no side-effect clause (C02's clause is about ID).  The C03 check compares the caller's objects anyway; added after round 1", run=["C03"]),
 
     # =============================================================== api.py: identify_outcomes
     M("p01", "api", API, "        if conditions is None:\n", "        if not conditions:\n", OUT,
@@ -214,6 +223,12 @@ MUTANTS = [
       "dropped call: ID runs on the outcomes only"),
     M("c12", "idc", IDC, "        for outcome in identification.outcomes\n", "        for outcome in list(identification.outcomes)[:1]\n", ["C03"],
       "wrong iteration target: only the outcome that the set happens to list first is tested (iteration-order dependent, needs two outcomes)"),
+    M("c13", "idc", IDC, "        are_d_separated(graph_mod, outcome, condition, conditions=conditions)\n",
+      "        are_d_separated(graph_mod, outcome, condition, conditions=treatments)\n", ["C03"],
+      "stale variable: the rule-2 test conditions on the treatments only; a collider opened by another condition is overlooked; added after round 1"),
+    M("c14", "idc", IDC, "            return idc(identification.exchange_observation_with_action(condition))\n",
+      "            return identify(identification.exchange_observation_with_action(condition).uncondition())\n", ["C03"],
+      "early return: after the first exchange the joint P(y, z' | do(x, z)) is returned without the normalisation (wrong as soon as a second condition remains); added after round 1"),
 
     # =============================================================== tian_id.py
     M("t01", "tian", TI, "    ancestral_set = frozenset(district_subgraph.ancestors_inclusive(input_variables))\n",
@@ -227,8 +242,10 @@ MUTANTS = [
     M("t04", "tian", TI, "            graph=graph,\n            topo=topo,\n", "            graph=ancestral_set_subgraph,\n            topo=topo,\n", EQ,
       "the recursion only takes subgraphs on subsets of T' which lies inside A"),
     M("t05", "tian", TI, "            ancestral_set_children = [world.get(a, a) for a in ordered_ancestral_set]\n",
-      "            ancestral_set_children = [world.get(a, a) for a in topo if a in input_district]\n", ["C17"],
-      "stale variable: Q[A] is written with the children of T (no marginalisation to the ancestral set) on the Probability branch"),
+      "            ancestral_set_children = [world.get(a, a) for a in topo if a in input_district]\n", EQ,
+      "stale variable: Q[A] is written with the children of T on the Probability branch. Harmless: the only consumer is Lemma 1 (compute_c_factor on a Probability), "
+      "which reads the parents and the intervention subscripts of the children and takes the variables from `subgraph_variables`, never the list of children "
+      "(first classified as breaking C17; silent, no disagreement with the model in 20 480 cases)"),
     M("t06", "tian", TI, "            preceding_variables = [world.get(v, v) for v in topo[: topo.index(variable)]]\n            conditioned_variables = graph_probability_parents.union(preceding_variables)  # V^(i-1)\n            probability = P(",
       "            preceding_variables = [world.get(v, v) for v in topo[: topo.index(variable) + 1]]\n            conditioned_variables = graph_probability_parents.union(preceding_variables)  # V^(i-1)\n            probability = P(",
       ["C17"], "off by one in Lemma 1 (plain branch): the variable is conditioned on itself"),
@@ -249,6 +266,10 @@ MUTANTS = [
       "stale variable: G_C instead of G_T, so A = C always and Sum_{T-C} Q[T] is returned even when C is not ancestral in G_T"),
     M("t24", "tian", TI, "            ].index(True)\n        ]\n", "            ].index(True) * 0\n        ]\n", ["C17"],
       "first district of G_A in set-iteration order instead of the one that contains C (KeyError in the recursive call, hash-order dependent)"),
+    M("t27", "tian", TI, "            input_district=targeted_ancestral_set_subgraph_district,\n", "            input_district=ancestral_set,\n", ["C17"],
+      "stale variable in the recursive call: A is handed over as the district together with Q[T'] (TypeError when G_A has several districts); added after round 1"),
+    M("t31", "tian", TI, "    ordered_ancestral_set = [a for a in topo if a in ancestral_set]\n", "    ordered_ancestral_set = [a for a in topo if a in input_variables]\n", ["C17"],
+      "stale variable: G_C instead of G_A in the recursive branch, so T' = C and Lemma 1 / Lemma 4 are applied to C as if it were a district of G_A; added after round 1"),
 ]
 
 FIXES = """## What the campaign changed in the checks
